@@ -232,12 +232,12 @@ pub fn decode(t: &mut Tape) -> GenCase {
                 if b.sigil == ' ' {
                     b
                 } else {
-                    GenRule { tail: t.choose(&[" > .x", ".other", "[href]", ":hover", " div", ", .second", "#id2", "+ .n", "~ .s"]).to_string(), ..b }
+                    GenRule { tail: t.choose(&[" > .x", ".other", "[href]", ":hover", " div", ", .second", "#id2", "+ .n", "~ .s", "+div", "+.n", "~.s", ">.x", ",.second"]).to_string(), ..b }
                 }
             }
             _ => {
                 let (text, value) = ident(t);
-                let tail = if t.chance(1, 2) { String::new() } else { t.choose(&[" > .x", ".other", "[href]", ":hover", " div", ", .second", "#id2", ":not(.y)"]).to_string() };
+                let tail = if t.chance(1, 2) { String::new() } else { t.choose(&[" > .x", ".other", "[href]", ":hover", " div", ", .second", "#id2", ":not(.y)", "+div", "~span", ">b", ",i"]).to_string() };
                 GenRule { sigil: if t.chance(2, 3) { '.' } else { '#' }, ident_text: text, ident_value: value, tail, via_negation: t.chance(1, 10) }
             }
         };
